@@ -57,7 +57,7 @@ def handle : List Sx → Sx
         | "not" => List.replicate k .not ++ [.atom]
         | "minus" => List.replicate k .minus ++ [.atom]
         | _ => []
-      match skExpr (toks.length + 1) budget toks with
+      match sk (5 * toks.length + 5) .expr budget toks with
       | .ok rest => .list [.atom "ok", sxNat rest.length]
       | .error .tooDeep => .list [.atom "err", .atom "tooDeep"]
       | .error .syntax => .list [.atom "err", .atom "syntax"]
